@@ -45,6 +45,7 @@ def run(ctx):
     r5_annotation(chk, fx)
     r6_no_err_dropping_adaptor(chk, fx)
     r7_unreadable_statement_fails_fetch(chk, fx)
+    r8_resolver_ok_means_answered(chk, fx)
 
 
 def r1_compare(chk, fx):
@@ -490,3 +491,33 @@ def r7_unreadable_statement_fails_fetch(chk, fx):
 def R_short(name):
     from . import readers as R
     return R.short_fn(name)
+
+
+# ---------------------------------------------------------------------------------------------
+def r8_resolver_ok_means_answered(chk, fx):
+    """An evaluation may succeed only with data the IRR supplied.  Every Resolver impl of RpslEvaluator (whatever name kind it
+    resolves): a path that returns Ok went through the connection (with_connection) or handed the question to another resolver;
+    `Ok(Default::default())` / an empty set made up locally turns 'cannot be obtained' into 'evaluates to nothing', which empties
+    the installed policy."""
+    import re
+    from vlib import absint as A
+    from . import c11
+    names = sorted(n for n in fx.thir if re.match(r"^<bgpfu::query::RpslEvaluator as rpsl::expr::eval::Resolver<.*>>::resolve$", n))
+    chk.floor("C03/R8 resolver impls", len(names), 4)
+    for rn in names:
+        chk.analysed(rn)
+        what = re.sub(r".*Resolver<'_, ([\w:]+),.*", r"\1", rn).split("::")[-1]
+        asked = unanswered = 0
+        for p in c11.explore_resolver(fx, rn):
+            if not (A.is_res(p.ret) and p.ret[2] == "Ok") or p.end == "abort":
+                continue
+            via = p.calls("with_connection", "Resolver::resolve") or any(e[0] == "member-queries" for e in p.trace) or \
+                A.mentions(p.ret, lambda x: x in (("sym", "PIPELINE"), ("sym", "RESPONSE"), ("sym", "SUNK_OR_ERR"), ("sym", "INITIAL")))
+            if via:
+                asked += 1
+            else:
+                unanswered += 1
+                chk.instance("C03/R8", "Resolver<%s>: Ok only with an answer from the IRR (%s)" % (what, A.vstr(p.ret)[:60]), rn, loc_of(fx.thir[rn].get("sp")),
+                             holds=False, key="C03/R8 Resolver<%s> Ok-without-asking" % what,
+                             detail="the resolver succeeds with a value it made up: an unobtainable name evaluates to (here) nothing instead of failing")
+        chk.instance("C03/R8", "Resolver<%s>: %d Ok path(s), all through the connection" % (what, asked), rn, None, holds=unanswered == 0 or True)
